@@ -8,7 +8,7 @@
    = code as pinned, [cfg_fixed sz] = with notes/C14_prealloc_cap.patch and
    notes/C14_validate_loaded.patch (and the two C12 patches). *)
 From FendV Require Import Base.Prelude Ser.Generated.BuiltinNames Ser.Codec Ser.Cfg
-  Ser.CodecRT Ser.CodecSafe Ser.NamesProofs Ser.CodecCor.
+  Ser.CodecRT Ser.CodecSafe Ser.NamesProofs Ser.CodecLoaded Ser.CodecCor.
 Open Scope N_scope.
 
 (* deser_total: the model's fuel (= input length) never runs out, for any
@@ -103,9 +103,30 @@ Theorem C14_resave_reload_fixed : forall sz, sizes_okb sz = true -> forall m res
 Proof. exact vars_roundtrip_fixed. Qed.
 Print Assumptions C14_resave_reload_fixed.
 
+(* whatever the tree being checked loads from a byte string is wf_codec and
+   mentions only accepted function literals (any uncapped configuration) ... *)
+Theorem C14_loaded_wf_codec : forall c asn, c_cap c = None ->
+  (forall s, mem s (c_from c) = true -> mem s asn = true) ->
+  forall bs m rest, bytes_ok bs -> run (de_vars c) bs = Ok (m, rest) ->
+  wfc_vars asn (c_sz c) m = true /\ forallb (fun kv => names_ok_value (c_from c) (snd kv)) m = true.
+Proof. exact loaded_wfc. Qed.
+Print Assumptions C14_loaded_wf_codec.
+
+(* ... hence saving it and loading the result gives the same map again, unless
+   a scope was loaded (listed class of C12: scope.rs's reader is not the
+   inverse of its writer) *)
+Theorem C14_resave_reload_except_known : forall sz, sizes_okb sz = true -> forall bs m r rest,
+  bytes_ok bs -> run (de_vars (cfg_today sz)) bs = Ok (m, r) ->
+  forallb (fun kv => negb (has_scope_value (snd kv))) m = true ->
+  run (de_vars (cfg_today sz)) (ser_vars m ++ rest) = Ok (m, rest).
+Proof. exact resave_reload_except_known. Qed.
+Print Assumptions C14_resave_reload_except_known.
+
 (* hypotheses are satisfiable *)
 Example C14_hypotheses_inhabited :
   prealloc_cap * max_sz sizes_x64 <= isize_max /\ sizes_okb sizes_x64 = true /\
   (let bs := ser_vars [(B"a", VNum (num_int 5))] in
-   alloc_okb sizes_x64 bs = true /\ max_sz sizes_x64 * len_N bs <= isize_max).
+   alloc_okb sizes_x64 bs = true /\ max_sz sizes_x64 * len_N bs <= isize_max /\
+   forallb (fun b => b <? 256) bs = true /\
+   run (de_vars (cfg_today sizes_x64)) bs = Ok ([(B"a", VNum (num_int 5))], [])).
 Proof. vm_compute. repeat split; try reflexivity; discriminate. Qed.
